@@ -77,8 +77,15 @@ def pythonize(prog, r):
     return q
 
 
+_hist = [0]
+
+
 def run_variants(prog):
     res = {"page": R.render_page(prog, dynamic=False), "dynamic": R.render_page(prog, dynamic=True)}
+    _hist[0] += 1
+    if _hist[0] % 3 == 0:
+        # no hidden state between renders of one compiled template: second render after a render with another context
+        res["rerender"] = R.render_page_after_other_context(prog)
     if R.python_variant_applicable(prog) is not None:
         for style in ("str", "safe", "func"):
             res["python-" + style] = R.render_python(prog, style)
